@@ -570,6 +570,7 @@ func RunParent(p *Prop, o Options) int {
 	exit := 0
 	printedKnown := map[string]bool{}
 	reported := map[string]bool{}
+	wrote := map[string]bool{}
 	nviol := 0
 	sort.Slice(a.viol, func(i, j int) bool { return a.viol[i].Idx < a.viol[j].Idx })
 	for _, cv := range a.viol {
@@ -586,6 +587,11 @@ func RunParent(p *Prop, o Options) int {
 		}
 		reported[cv.V.Key] = true
 		path := filepath.Join(o.VerifDir, "replays", fmt.Sprintf("%s-s%d-c%d.json", p.ID, o.Seed, cv.Idx))
+		if wrote[path] {
+			// a second violation key of the same case: keep the first witness, write this one beside it
+			path = filepath.Join(o.VerifDir, "replays", fmt.Sprintf("%s-s%d-c%d-%d.json", p.ID, o.Seed, cv.Idx, len(wrote)))
+		}
+		wrote[path] = true
 		w := map[string]any{"property": p.ID, "tier": o.Tier, "seed": o.Seed, "case": cv.Idx, "key": cv.V.Key, "msg": cv.V.Msg, "detail": cv.V.Detail}
 		b, _ := json.MarshalIndent(w, "", " ")
 		os.WriteFile(path, b, 0o644)
